@@ -166,6 +166,30 @@ struct Harness {
 		for(int i = 0; i < 2; ++i) k += lslot[i] < 0 ? std::string("e,") : lalive[lslot[i]] ? fmt("%d.%d,", lkey[lslot[i]], (int)(std::find(lorder[lkey[lslot[i]]].begin(), lorder[lkey[lslot[i]]].end(), lslot[i]) - lorder[lkey[lslot[i]]].begin())) : std::string("d,");
 		k += fmt("a%d|P:", ladds % 2);
 		for(auto & p : pending) k += fmt("%d.%d,", p.key, p.v);
+		// what the implementation holds, relative to the model's order (one token each when they agree): listeners per event by
+		// public enumeration, filters through the mixin's private list
+		for(int key = 0; key < 2; ++key) {
+			std::string ord; bool same = true; size_t pos = 0;
+			d->forEach(key + 1, [&](const Handle & h, const typename D::Callback &) {
+				int id = -1; for(size_t i = 0; i < lh.size(); ++i) if(lh[i].lock() == h.lock()) id = (int)i;
+				if(pos >= lorder[key].size() || lorder[key][pos] != id) same = false;
+				ord += fmt("%d,", id); ++pos;
+			});
+			if(pos != lorder[key].size()) same = false;
+			k += same ? std::string("|=") : "|E:" + ord;
+		}
+#ifndef VERIF_NO_PRIVATE
+		{
+			std::string ord; bool same = true; size_t pos = 0;
+			d->filterList.forEach([&](const typename D::FilterHandle & h, const typename D::Filter &) {
+				int id = -1; for(size_t i = 0; i < fh.size(); ++i) if(fh[i].lock() == h.lock()) id = (int)i;
+				if(pos >= forder.size() || forder[pos] != id) same = false;
+				ord += fmt("%d,", id); ++pos;
+			});
+			if(pos != forder.size()) same = false;
+			k += same ? std::string("|=") : "|FE:" + ord;
+		}
+#endif
 		return k + (g_block2 ? "B" : "");
 	}
 	void body(Bfs & b) {
